@@ -1,6 +1,7 @@
 package model
 
 import (
+	"io"
 	"fmt"
 	"strconv"
 	"strings"
@@ -8,6 +9,7 @@ import (
 
 	"github.com/freeconf/yang/meta"
 	"github.com/freeconf/yang/parser"
+	"github.com/freeconf/yang/source"
 	"github.com/freeconf/yang/val"
 )
 
@@ -79,6 +81,33 @@ var Schemas = map[string]string{
 
 func init() {
 	Schemas["types"] = TypesSchema
+	// several modules contribute to one tree: an imported grouping (idents imp*), a submodule
+	// (idents s*), own augments into each of them
+	Schemas["multi"] = `module multi { namespace "urn:multi"; prefix mu; import mimp { prefix i; } include msub; revision 0;
+  container c { leaf own { type string; } uses i:g; container in { uses i:g2; leaf own2 { type string; } } }
+  list l { key k; leaf k { type string; } uses i:g2; container lc { uses i:g; } }
+  uses i:g3;
+  augment "/c" { leaf aug1 { type string; } }
+  augment "/c/impy" { leaf aug2 { type string; } }
+  augment "/sc" { leaf aug3 { type string; } }
+}`
+	SchemaFiles["multi"] = map[string]string{
+		"mimp": `module mimp { namespace "urn:mimp"; prefix mimp; revision 0;
+  grouping g { leaf impx { type string; } container impy { leaf impz { type string; } } }
+  grouping g2 { leaf imp2 { type string; } }
+  grouping g3 { container imptop { leaf impt { type string; } list impl { key impk; leaf impk { type string; } leaf impv { type string; } } } }
+}`,
+		"msub": `submodule msub { belongs-to multi { prefix mu; } import mimp { prefix i; }
+  container sc { leaf sl { type string; } uses i:g2; }
+  augment "/c" { leaf sa { type string; } }
+}`,
+	}
+	ModuleOf["multi"] = func(ident string) string {
+		if strings.HasPrefix(ident, "imp") {
+			return "mimp"
+		}
+		return "multi"
+	}
 }
 
 // TypesSchema: every built-in leaf type, leaf-lists, a keyed list.
@@ -125,8 +154,28 @@ var (
 )
 
 // LoadText compiles YANG text (panics on error: harness schemas are valid).
+// SchemaFiles holds the other modules / submodules a family member needs (by schema name).
+var SchemaFiles = map[string]map[string]string{}
+
+// ModuleOf gives, per schema name, the harness' own answer to "which module's text defines the
+// data node with this identifier" (nil: the schema's only module).
+var ModuleOf = map[string]func(ident string) string{}
+
 func LoadText(text string) *meta.Module {
-	m, err := parser.LoadModuleFromString(nil, text)
+	return LoadTextWith(text, nil)
+}
+
+func LoadTextWith(text string, files map[string]string) *meta.Module {
+	var op source.Opener
+	if files != nil {
+		op = func(name string, ext string) (io.Reader, error) {
+			if t, ok := files[name]; ok {
+				return strings.NewReader(t), nil
+			}
+			return nil, fmt.Errorf("%s not found", name)
+		}
+	}
+	m, err := parser.LoadModuleFromString(op, text)
 	if err != nil {
 		panic(fmt.Sprintf("harness schema does not load: %v\n%s", err, text))
 	}
@@ -140,7 +189,7 @@ func Schema(name string) *meta.Module {
 	if !ok {
 		panic("unknown schema " + name)
 	}
-	return LoadText(text)
+	return LoadTextWith(text, SchemaFiles[name])
 }
 
 // SharedSchema returns a cached module (read-only use).
